@@ -11,7 +11,7 @@ The template (contracts/<unit>/<file>) is Verus source with two kinds of directi
 
 `extract` pastes the *current* text of the item from the repository working tree:
   - leading doc comments and attributes are dropped (named in `dropped`),
-  - `-> T` in the header becomes `-> (r: T)` (Verus needs a result binder),
+  - `-> T` in the header becomes `-> (r: T)` (Verus needs a result binder); with strip_pub=1 a leading `pub` is dropped,
   - the spec lines are inserted between header and body,
   - the body is pasted byte for byte.
 Everything else in the generated file is the template. The generated file is kept under
@@ -64,6 +64,9 @@ def extract_item(repo_rel, item_path, spec_lines, opts, unit):
             where = " " + ret[wm.start():]
             ret = ret[:wm.start()].strip()
         header = header[:m.start()] + "-> (r: %s)%s" % (ret, where)
+    if opts.get("strip_pub"):
+        # visibility only: lets an ensures clause mention private fields of a type defined in the same file
+        header = re.sub(r"^pub(\([^)]*\))?\s+", "", header)
     if opts.get("rename"):
         header = re.sub(r"\bfn\s+%s\b" % re.escape(it.name), "fn " + opts["rename"], header, count=1)
     spec = "".join("    " + l + "\n" for l in spec_lines)
@@ -84,7 +87,7 @@ def build_file(unit, vspec):
             out.append(pred_to_spec(open(os.path.join(unit.dir, m.group(1))).read()))
             i += 1
             continue
-        m = re.match(r"\s*//@ extract (\S+) (\S+)(.*)", l)
+        m = re.match(r"\s*//@ extract (\S+) ((?:struct |enum )?\S+)(.*)", l)
         if m:
             opts = dict(re.findall(r"(\w+)=(\S+)", m.group(3)))
             spec_lines = []
